@@ -81,16 +81,18 @@ const (
 
 // Options bound the generator.
 type Options struct {
-	MaxModules  int
-	MaxFiles    int
-	Targeting   bool
-	PlantError  bool
-	SupplyWKT   func(path string) string // returns built-in content for a WKT path
-	NoEditions  bool
-	LintClean   bool
+	MaxModules int
+	MaxFiles   int
+	Targeting  bool
+	PlantError bool
+	SupplyWKT  func(path string) string // returns built-in content for a WKT path
+	NoEditions bool
+	LintClean  bool
 	// UnusedHeavy adds files with many unused imports: the compiler then emits many warnings
 	// from concurrently linking files.
 	UnusedHeavy bool
+	// ForceSupplyWKT makes the workspace always supply its own copy of a well-known type.
+	ForceSupplyWKT bool
 	// CustomOptions allows a file declaring custom message options (one with source retention).
 	CustomOptions bool
 }
@@ -255,7 +257,7 @@ func New(t *tape.Tape, o Options) *Workspace {
 		render(t, ws, f, o)
 	}
 	// a workspace may supply its own copy of a well-known type
-	if o.SupplyWKT != nil && t.Draw("ws.supplywkt", 5) == 4 {
+	if o.SupplyWKT != nil && (t.Draw("ws.supplywkt", 5) == 4 || o.ForceSupplyWKT) {
 		p := tape.Pick(t, "ws.supplypath", wktPaths)
 		// module 0: every other module may depend on it without creating a module cycle
 		m := ws.Modules[0]
